@@ -1,15 +1,1306 @@
 package main
 
+// Replay of solver counterexamples against the real code.
+//
+// For a refuted `ensures` or `safety` obligation of a function whose parameters can be rebuilt
+// from the model (integers, booleans, byte slices / arrays, *big.Int, *uint256.Int, structs and
+// pointers to structs of the function's own package made of those, slices of those), gvc asks the
+// solver for the input values, writes an in-package Go test that calls the real function with
+// them and evaluates the failed clause in Go (spec integers as *big.Int), and runs it with
+// `go test -overlay` (nothing is written under the repository). The violation is "confirmed"
+// when the real code falsifies the clause (or panics, for a safety obligation). Anything outside
+// that fragment (interfaces, ghost state, uninterpreted spec functions, foreign structs) is
+// reported without replay (the VIOLATION line then ends with no-failing-input-found).
+
 import (
 	"encoding/json"
 	"fmt"
+	"go/ast"
+	"go/token"
+	"go/types"
+	"math/big"
 	"os"
+	"os/exec"
+	"path/filepath"
+	"sort"
+	"strconv"
+	"strings"
+
+	"golang.org/x/tools/go/ssa"
 )
 
-// tryReplay attempts to run the solver's counterexample against the real code.
-// Returns true when the real code reproduces the violation.
-func (e *Engine) tryReplay(o *Obl, prop, verif string) bool {
+type rnode struct {
+	kind  string
+	typ   types.Type
+	terms []string
+	kids  []*rnode
+	names []string
+	n     int
+}
+
+const (
+	replayMaxBytes = 96
+	replayMaxElems = 16
+)
+
+type replayer struct {
+	c       *Ctx
+	e       *Engine
+	fn      *ssa.Function
+	pkg     *types.Package
+	imports map[string]string // path -> name
+	terms   []string
+	tindex  map[string]int
+	vals    []string
+	unsup   string
+	bounds  []string // size bounds that keep the model reconstructible (tried first)
+	pre     []string // statements evaluated before the call
+	nvar    int
+	lets    map[string]*tval
+	defs    map[string]*SpecDefine
+	vars    map[string]*tval
+	inPost  bool
+}
+
+// tval: a translated expression. kind: "int" (code is a *big.Int expression), "bool", "native" (Go value of type typ)
+type tval struct {
+	code string
+	kind string
+	typ  types.Type
+}
+
+func (r *replayer) fail(format string, a ...interface{}) {
+	if r.unsup == "" {
+		r.unsup = fmt.Sprintf(format, a...)
+	}
+}
+
+func (r *replayer) term(t string) int {
+	if i, ok := r.tindex[t]; ok {
+		return i
+	}
+	r.tindex[t] = len(r.terms)
+	r.terms = append(r.terms, t)
+	return len(r.terms) - 1
+}
+
+func (r *replayer) qual(p *types.Package) string {
+	if p == nil || p == r.pkg {
+		return ""
+	}
+	r.imports[p.Path()] = p.Name()
+	return p.Name()
+}
+
+func (r *replayer) typeStr(t types.Type) string {
+	return types.TypeString(t, r.qual)
+}
+
+func isByte(t types.Type) bool {
+	b, ok := t.Underlying().(*types.Basic)
+	return ok && b.Kind() == types.Uint8
+}
+
+// plan builds the reconstruction plan of a value of type t whose leaves are v (entry state).
+func (r *replayer) plan(t types.Type, v Val, depth int) *rnode {
+	c := r.c
+	if depth > 6 {
+		r.fail("value nesting too deep")
+		return nil
+	}
+	if key, ok := specialNamed(t); ok {
+		if key == "github.com/holiman/uint256.Int" {
+			return &rnode{kind: "u256val", typ: t, terms: []string{v[0]}}
+		}
+		if key == "math/big.Int" {
+			return &rnode{kind: "bigval", typ: t, terms: []string{v[0]}}
+		}
+		r.fail("opaque library type %s", key)
+		return nil
+	}
+	switch u := t.Underlying().(type) {
+	case *types.Basic:
+		info := u.Info()
+		if info&types.IsBoolean != 0 {
+			return &rnode{kind: "bool", typ: t, terms: []string{v[0]}}
+		}
+		if info&types.IsInteger != 0 {
+			return &rnode{kind: "int", typ: t, terms: []string{v[0]}}
+		}
+		r.fail("parameter of basic type %s", u.Name())
+		return nil
+	case *types.Array:
+		if isByte(u.Elem()) && u.Len() <= replayMaxBytes {
+			n := &rnode{kind: "bytearr", typ: t, n: int(u.Len())}
+			for k := int64(0); k < u.Len(); k++ {
+				n.terms = append(n.terms, sel(v[0], num(k)))
+			}
+			return n
+		}
+		r.fail("array parameter %s", t)
+		return nil
+	case *types.Slice:
+		st := c.entry
+		if isByte(u.Elem()) {
+			n := &rnode{kind: "bytes", typ: t, terms: []string{v[0], v[1], v[2], v[3]}}
+			r.bounds = append(r.bounds, le(v[2], num(replayMaxBytes)))
+			arr := sel(c.heapGet(st.heap, "E|uint8|", memSort("Int", 2)), v[0])
+			for k := 0; k < replayMaxBytes; k++ {
+				n.terms = append(n.terms, sel(arr, add(v[1], num(int64(k)))))
+			}
+			return n
+		}
+		n := &rnode{kind: "slice", typ: t, terms: []string{v[0], v[1], v[2], v[3]}}
+		r.bounds = append(r.bounds, le(v[2], num(replayMaxElems)))
+		for k := 0; k < replayMaxElems; k++ {
+			ev := c.load(st.heap, locElemOfSlice(v, num(int64(k)), u.Elem()))
+			kid := r.plan(u.Elem(), ev, depth+1)
+			if kid == nil {
+				return nil
+			}
+			n.kids = append(n.kids, kid)
+		}
+		return n
+	case *types.Pointer:
+		el := u.Elem()
+		if key, ok := specialNamed(el); ok {
+			val := c.load(c.entry.heap, locOfRef(v[0], el))
+			switch key {
+			case "math/big.Int":
+				return &rnode{kind: "bigptr", typ: t, terms: []string{v[0], val[0]}}
+			case "github.com/holiman/uint256.Int":
+				return &rnode{kind: "u256ptr", typ: t, terms: []string{v[0], val[0]}}
+			}
+			r.fail("pointer to opaque library type %s", key)
+			return nil
+		}
+		if _, ok := el.Underlying().(*types.Struct); ok {
+			val := c.load(c.entry.heap, locOfRef(v[0], el))
+			kid := r.plan(el, val, depth+1)
+			if kid == nil {
+				return nil
+			}
+			return &rnode{kind: "ptr", typ: t, terms: []string{v[0]}, kids: []*rnode{kid}}
+		}
+		if _, ok := el.Underlying().(*types.Basic); ok {
+			val := c.load(c.entry.heap, locOfRef(v[0], el))
+			kid := r.plan(el, val, depth+1)
+			if kid == nil {
+				return nil
+			}
+			return &rnode{kind: "ptr", typ: t, terms: []string{v[0]}, kids: []*rnode{kid}}
+		}
+		r.fail("pointer parameter %s", t)
+		return nil
+	case *types.Struct:
+		if named, ok := types.Unalias(t).(*types.Named); ok && named.Obj().Pkg() != r.pkg {
+			// a foreign struct: only settable if every field is exported
+			for i := 0; i < u.NumFields(); i++ {
+				if !u.Field(i).Exported() {
+					r.fail("struct %s of another package has unexported fields", t)
+					return nil
+				}
+			}
+		}
+		n := &rnode{kind: "struct", typ: t}
+		for i := 0; i < u.NumFields(); i++ {
+			a, b := fieldRange(u, i)
+			if b > len(v) {
+				r.fail("shape mismatch for %s", t)
+				return nil
+			}
+			kid := r.plan(u.Field(i).Type(), v[a:b], depth+1)
+			if kid == nil {
+				return nil
+			}
+			n.kids = append(n.kids, kid)
+			n.names = append(n.names, u.Field(i).Name())
+		}
+		return n
+	}
+	r.fail("parameter type %s", t)
+	return nil
+}
+
+func (r *replayer) register(n *rnode) {
+	for _, t := range n.terms {
+		r.term(t)
+	}
+	for _, k := range n.kids {
+		r.register(k)
+	}
+}
+
+func (r *replayer) val(t string) string { return r.vals[r.tindex[t]] }
+
+func (r *replayer) ival(t string) *big.Int {
+	v, ok := new(big.Int).SetString(r.val(t), 10)
+	if !ok {
+		r.fail("non-integer model value %q", r.val(t))
+		return big.NewInt(0)
+	}
+	return v
+}
+
+// emit returns the Go expression that rebuilds the value.
+func (r *replayer) emit(n *rnode) string {
+	ts := r.typeStr(n.typ)
+	switch n.kind {
+	case "bool":
+		return r.val(n.terms[0])
+	case "int":
+		return fmt.Sprintf("%s(%s)", ts, gvIntLit(r.ival(n.terms[0]), n.typ))
+	case "bytearr":
+		var bs []string
+		for _, t := range n.terms {
+			bs = append(bs, new(big.Int).And(r.ival(t), big.NewInt(255)).String())
+		}
+		return fmt.Sprintf("%s{%s}", ts, strings.Join(bs, ", "))
+	case "bytes":
+		ref, ln, cp := r.ival(n.terms[0]), r.ival(n.terms[2]), r.ival(n.terms[3])
+		if ref.Sign() == 0 {
+			return fmt.Sprintf("%s(nil)", ts)
+		}
+		if !ln.IsInt64() || ln.Int64() < 0 || ln.Int64() > replayMaxBytes {
+			r.fail("byte slice of length %s in the model", ln)
+			return "nil"
+		}
+		extra := int64(0)
+		if cp.Cmp(ln) > 0 {
+			extra = 8
+		}
+		var bs []string
+		for k := int64(0); k < ln.Int64(); k++ {
+			bs = append(bs, new(big.Int).And(r.ival(n.terms[4+k]), big.NewInt(255)).String())
+		}
+		return fmt.Sprintf("%s(append(make([]byte, 0, %d), []byte{%s}...))", ts, ln.Int64()+extra, strings.Join(bs, ", "))
+	case "slice":
+		ref, ln := r.ival(n.terms[0]), r.ival(n.terms[2])
+		if ref.Sign() == 0 {
+			return fmt.Sprintf("%s(nil)", ts)
+		}
+		if !ln.IsInt64() || ln.Int64() < 0 || ln.Int64() > replayMaxElems {
+			r.fail("slice of length %s in the model", ln)
+			return "nil"
+		}
+		var es []string
+		for k := int64(0); k < ln.Int64(); k++ {
+			es = append(es, r.emit(n.kids[k]))
+		}
+		return fmt.Sprintf("%s{%s}", ts, strings.Join(es, ", "))
+	case "bigptr":
+		r.imports["math/big"] = "big"
+		if r.ival(n.terms[0]).Sign() == 0 {
+			return "(*big.Int)(nil)"
+		}
+		return fmt.Sprintf("gvBigLit(%q)", r.ival(n.terms[1]).String())
+	case "bigval":
+		r.imports["math/big"] = "big"
+		return fmt.Sprintf("*gvBigLit(%q)", r.ival(n.terms[0]).String())
+	case "u256ptr":
+		r.imports["github.com/holiman/uint256"] = "uint256"
+		if r.ival(n.terms[0]).Sign() == 0 {
+			return "(*uint256.Int)(nil)"
+		}
+		return fmt.Sprintf("gvU256Lit(%q)", r.ival(n.terms[1]).String())
+	case "u256val":
+		r.imports["github.com/holiman/uint256"] = "uint256"
+		return fmt.Sprintf("*gvU256Lit(%q)", r.ival(n.terms[0]).String())
+	case "ptr":
+		if r.ival(n.terms[0]).Sign() == 0 {
+			return fmt.Sprintf("(%s)(nil)", ts)
+		}
+		inner := r.emit(n.kids[0])
+		if _, ok := n.kids[0].typ.Underlying().(*types.Struct); ok {
+			return "&" + inner
+		}
+		return fmt.Sprintf("func() %s { x := %s; return &x }()", ts, inner)
+	case "struct":
+		var fs []string
+		for i, k := range n.kids {
+			fs = append(fs, fmt.Sprintf("%s: %s", n.names[i], r.emit(k)))
+		}
+		return fmt.Sprintf("%s{%s}", ts, strings.Join(fs, ", "))
+	}
+	r.fail("cannot emit %s", n.kind)
+	return "nil"
+}
+
+func gvIntLit(v *big.Int, t types.Type) string {
+	b, ok := t.Underlying().(*types.Basic)
+	if ok {
+		lo, hi := intRange(b)
+		if lo != nil && (v.Cmp(lo) < 0 || v.Cmp(hi) > 0) {
+			// out-of-range model value (should not happen): wrap
+			m := new(big.Int).Sub(hi, lo)
+			m.Add(m, big.NewInt(1))
+			w := new(big.Int).Sub(v, lo)
+			w.Mod(w, m)
+			w.Add(w, lo)
+			return w.String()
+		}
+	}
+	return v.String()
+}
+
+// ---------------------------------------------------------------------------
+// clause translation
+
+func (r *replayer) fresh(prefix string) string {
+	r.nvar++
+	return fmt.Sprintf("%s%d", prefix, r.nvar)
+}
+
+func (r *replayer) asInt(v *tval) string {
+	if v == nil {
+		return "gvInt(0)"
+	}
+	switch v.kind {
+	case "int":
+		return v.code
+	case "native":
+		return "gvInt(" + v.code + ")"
+	}
+	r.fail("boolean used as a number")
+	return "gvInt(0)"
+}
+
+func (r *replayer) asBool(v *tval) string {
+	if v == nil {
+		return "false"
+	}
+	if v.kind == "bool" {
+		return v.code
+	}
+	if v.kind == "native" {
+		if b, ok := v.typ.Underlying().(*types.Basic); ok && b.Info()&types.IsBoolean != 0 {
+			return v.code
+		}
+	}
+	r.fail("number used as a boolean")
+	return "false"
+}
+
+func isIntType(t types.Type) bool {
+	if t == nil {
+		return false
+	}
+	b, ok := t.Underlying().(*types.Basic)
+	return ok && b.Info()&types.IsInteger != 0
+}
+
+func isBoolType(t types.Type) bool {
+	if t == nil {
+		return false
+	}
+	b, ok := t.Underlying().(*types.Basic)
+	return ok && b.Info()&types.IsBoolean != 0
+}
+
+func (r *replayer) numeric(v *tval) bool {
+	if v == nil {
+		return false
+	}
+	return v.kind == "int" || (v.kind == "native" && isIntType(v.typ))
+}
+
+func substIdents(e ast.Expr, m map[string]ast.Expr) ast.Expr {
+	switch x := e.(type) {
+	case *ast.Ident:
+		if s, ok := m[x.Name]; ok {
+			return s
+		}
+		return x
+	case *ast.BinaryExpr:
+		return &ast.BinaryExpr{X: substIdents(x.X, m), Op: x.Op, Y: substIdents(x.Y, m)}
+	case *ast.UnaryExpr:
+		return &ast.UnaryExpr{Op: x.Op, X: substIdents(x.X, m)}
+	case *ast.ParenExpr:
+		return &ast.ParenExpr{X: substIdents(x.X, m)}
+	case *ast.StarExpr:
+		return &ast.StarExpr{X: substIdents(x.X, m)}
+	case *ast.SelectorExpr:
+		return &ast.SelectorExpr{X: substIdents(x.X, m), Sel: x.Sel}
+	case *ast.IndexExpr:
+		return &ast.IndexExpr{X: substIdents(x.X, m), Index: substIdents(x.Index, m)}
+	case *ast.SliceExpr:
+		n := &ast.SliceExpr{X: substIdents(x.X, m), Slice3: x.Slice3}
+		if x.Low != nil {
+			n.Low = substIdents(x.Low, m)
+		}
+		if x.High != nil {
+			n.High = substIdents(x.High, m)
+		}
+		return n
+	case *ast.CallExpr:
+		n := &ast.CallExpr{Fun: x.Fun}
+		if _, ok := x.Fun.(*ast.Ident); !ok {
+			n.Fun = substIdents(x.Fun, m)
+		}
+		for i, a := range x.Args {
+			// the bound variable of a quantifier is not substituted
+			if id, ok := x.Fun.(*ast.Ident); ok && (id.Name == "forall" || id.Name == "exists") && i == 0 {
+				n.Args = append(n.Args, a)
+				continue
+			}
+			n.Args = append(n.Args, substIdents(a, m))
+		}
+		return n
+	}
+	return e
+}
+
+func (r *replayer) tr(e ast.Expr) *tval {
+	if r.unsup != "" {
+		return &tval{code: "false", kind: "bool"}
+	}
+	switch x := e.(type) {
+	case *ast.ParenExpr:
+		v := r.tr(x.X)
+		return &tval{code: "(" + v.code + ")", kind: v.kind, typ: v.typ}
+	case *ast.BasicLit:
+		switch x.Kind {
+		case token.INT:
+			v, ok := new(big.Int).SetString(x.Value, 0)
+			if !ok {
+				r.fail("literal %s", x.Value)
+				return &tval{code: "gvInt(0)", kind: "int"}
+			}
+			return &tval{code: fmt.Sprintf("gvBigLit(%q)", v.String()), kind: "int"}
+		case token.CHAR:
+			return &tval{code: "gvInt(" + x.Value + ")", kind: "int"}
+		}
+		r.fail("literal %s", x.Value)
+	case *ast.Ident:
+		switch x.Name {
+		case "true", "false":
+			return &tval{code: x.Name, kind: "bool"}
+		case "nil":
+			return &tval{code: "nil", kind: "nil"}
+		}
+		if v, ok := r.vars[x.Name]; ok {
+			return v
+		}
+		if v, ok := r.lets[x.Name]; ok {
+			return v
+		}
+		if r.pkg != nil {
+			if obj := r.pkg.Scope().Lookup(x.Name); obj != nil {
+				switch o := obj.(type) {
+				case *types.Const, *types.Var:
+					return &tval{code: x.Name, kind: "native", typ: o.Type()}
+				}
+			}
+		}
+		r.fail("identifier %s (ghost, spec function or unknown)", x.Name)
+	case *ast.UnaryExpr:
+		switch x.Op {
+		case token.NOT:
+			return &tval{code: "!(" + r.asBool(r.tr(x.X)) + ")", kind: "bool"}
+		case token.SUB:
+			return &tval{code: "gvNeg(" + r.asInt(r.tr(x.X)) + ")", kind: "int"}
+		}
+		r.fail("operator %s", x.Op)
+	case *ast.StarExpr:
+		v := r.tr(x.X)
+		if v.kind == "native" {
+			if p, ok := v.typ.Underlying().(*types.Pointer); ok {
+				return &tval{code: "(*" + v.code + ")", kind: "native", typ: p.Elem()}
+			}
+		}
+		r.fail("dereference of a non-pointer")
+	case *ast.BinaryExpr:
+		return r.trBinary(x)
+	case *ast.SelectorExpr:
+		// package-qualified name
+		if id, ok := x.X.(*ast.Ident); ok {
+			if _, bound := r.vars[id.Name]; !bound {
+				if _, isLet := r.lets[id.Name]; !isLet && r.pkg != nil {
+					for _, imp := range r.pkg.Imports() {
+						if imp.Name() == id.Name {
+							if obj := imp.Scope().Lookup(x.Sel.Name); obj != nil && obj.Exported() {
+								return &tval{code: r.qual(imp) + "." + x.Sel.Name, kind: "native", typ: obj.Type()}
+							}
+						}
+					}
+				}
+			}
+		}
+		v := r.tr(x.X)
+		if v.kind != "native" {
+			r.fail("field of a non-object")
+			break
+		}
+		obj, _, _ := types.LookupFieldOrMethod(v.typ, true, r.pkg, x.Sel.Name)
+		if f, ok := obj.(*types.Var); ok {
+			return &tval{code: v.code + "." + x.Sel.Name, kind: "native", typ: f.Type()}
+		}
+		r.fail("field %s", x.Sel.Name)
+	case *ast.IndexExpr:
+		v := r.tr(x.X)
+		i := r.tr(x.Index)
+		if v.kind != "native" {
+			r.fail("index of a non-object")
+			break
+		}
+		var et types.Type
+		code := v.code
+		switch u := v.typ.Underlying().(type) {
+		case *types.Slice:
+			et = u.Elem()
+		case *types.Array:
+			et = u.Elem()
+		case *types.Pointer:
+			if a, ok := u.Elem().Underlying().(*types.Array); ok {
+				et = a.Elem()
+			}
+		case *types.Map:
+			kt := r.typeStr(u.Key())
+			if isIntType(u.Key()) {
+				return &tval{code: fmt.Sprintf("%s[%s(gvToI64(%s))]", code, kt, r.asInt(i)), kind: "native", typ: u.Elem()}
+			}
+			if i.kind == "native" {
+				return &tval{code: fmt.Sprintf("%s[%s]", code, i.code), kind: "native", typ: u.Elem()}
+			}
+		}
+		if et == nil {
+			r.fail("index expression on %s", v.typ)
+			break
+		}
+		return &tval{code: fmt.Sprintf("%s[gvIdx(%s)]", code, r.asInt(i)), kind: "native", typ: et}
+	case *ast.SliceExpr:
+		v := r.tr(x.X)
+		if v.kind != "native" {
+			r.fail("slice of a non-object")
+			break
+		}
+		lo, hi := "", ""
+		if x.Low != nil {
+			lo = "gvIdx(" + r.asInt(r.tr(x.Low)) + ")"
+		}
+		if x.High != nil {
+			hi = "gvIdx(" + r.asInt(r.tr(x.High)) + ")"
+		}
+		var rt types.Type
+		switch u := v.typ.Underlying().(type) {
+		case *types.Slice:
+			rt = v.typ
+		case *types.Array:
+			rt = types.NewSlice(u.Elem())
+		case *types.Basic:
+			rt = v.typ
+		}
+		if rt == nil {
+			r.fail("slice expression on %s", v.typ)
+			break
+		}
+		return &tval{code: fmt.Sprintf("%s[%s:%s]", v.code, lo, hi), kind: "native", typ: rt}
+	case *ast.CallExpr:
+		return r.trCall(x)
+	}
+	if r.unsup == "" {
+		r.fail("expression %s", exprString(e))
+	}
+	return &tval{code: "false", kind: "bool"}
+}
+
+func (r *replayer) trBinary(x *ast.BinaryExpr) *tval {
+	switch x.Op {
+	case token.LAND, token.LOR:
+		a, b := r.asBool(r.tr(x.X)), r.asBool(r.tr(x.Y))
+		return &tval{code: "(" + a + " " + x.Op.String() + " " + b + ")", kind: "bool"}
+	}
+	a, b := r.tr(x.X), r.tr(x.Y)
+	switch x.Op {
+	case token.ADD, token.SUB, token.MUL, token.QUO, token.REM, token.SHL, token.SHR:
+		fn := map[token.Token]string{token.ADD: "gvAdd", token.SUB: "gvSub", token.MUL: "gvMul", token.QUO: "gvDiv", token.REM: "gvMod", token.SHL: "gvShl", token.SHR: "gvShr"}[x.Op]
+		return &tval{code: fmt.Sprintf("%s(%s, %s)", fn, r.asInt(a), r.asInt(b)), kind: "int"}
+	case token.LSS, token.LEQ, token.GTR, token.GEQ:
+		return &tval{code: fmt.Sprintf("(%s.Cmp(%s) %s 0)", r.asInt(a), r.asInt(b), x.Op.String()), kind: "bool"}
+	case token.EQL, token.NEQ:
+		neg := ""
+		if x.Op == token.NEQ {
+			neg = "!"
+		}
+		switch {
+		case a.kind == "nil" || b.kind == "nil":
+			o := a
+			if a.kind == "nil" {
+				o = b
+			}
+			if o.kind != "native" {
+				r.fail("nil comparison of a non-object")
+				break
+			}
+			return &tval{code: fmt.Sprintf("%sgvIsNil(%s)", neg, o.code), kind: "bool"}
+		case r.numeric(a) || r.numeric(b):
+			return &tval{code: fmt.Sprintf("%s(%s.Cmp(%s) == 0)", neg, r.asInt(a), r.asInt(b)), kind: "bool"}
+		case a.kind == "bool" || b.kind == "bool" || isBoolType(a.typ) || isBoolType(b.typ):
+			return &tval{code: fmt.Sprintf("%s(%s == %s)", neg, r.asBool(a), r.asBool(b)), kind: "bool"}
+		case a.kind == "native" && b.kind == "native":
+			return &tval{code: fmt.Sprintf("%sgvEq(%s, %s)", neg, a.code, b.code), kind: "bool"}
+		}
+	}
+	r.fail("operator %s", x.Op)
+	return &tval{code: "false", kind: "bool"}
+}
+
+func (r *replayer) lookupNamed(s string) (types.Type, bool) {
+	ptr := strings.HasPrefix(s, "*")
+	s = strings.TrimPrefix(s, "*")
+	i := strings.LastIndex(s, ".")
+	if i < 0 {
+		return nil, false
+	}
+	pn, tn := s[:i], s[i+1:]
+	for path, tp := range r.e.tpkgs {
+		if tp.Name() == pn || path == pn || strings.HasSuffix(path, "/"+pn) {
+			if obj := tp.Scope().Lookup(tn); obj != nil {
+				if _, ok := obj.(*types.TypeName); ok {
+					var t types.Type = obj.Type()
+					if ptr {
+						t = types.NewPointer(t)
+					}
+					return t, true
+				}
+			}
+		}
+	}
+	return nil, false
+}
+
+func strArg(e ast.Expr) (string, bool) {
+	if bl, ok := e.(*ast.BasicLit); ok && bl.Kind == token.STRING {
+		s, err := strconv.Unquote(bl.Value)
+		return s, err == nil
+	}
+	return "", false
+}
+
+func (r *replayer) trCall(x *ast.CallExpr) *tval {
+	if id, ok := x.Fun.(*ast.Ident); ok {
+		name := id.Name
+		if d, ok := r.defs[name]; ok && len(d.Params) == len(x.Args) {
+			m := map[string]ast.Expr{}
+			for i, p := range d.Params {
+				m[p] = &ast.ParenExpr{X: x.Args[i]}
+			}
+			return r.tr(substIdents(d.Body, m))
+		}
+		switch name {
+		case "old":
+			if !r.inPost {
+				return r.tr(x.Args[0])
+			}
+			r.inPost = false
+			v := r.tr(x.Args[0])
+			r.inPost = true
+			nm := r.fresh("gvOld")
+			r.pre = append(r.pre, fmt.Sprintf("%s := %s", nm, v.code))
+			return &tval{code: nm, kind: v.kind, typ: v.typ}
+		case "len", "cap":
+			v := r.tr(x.Args[0])
+			if v.kind == "native" {
+				return &tval{code: fmt.Sprintf("gvInt(%s(%s))", name, v.code), kind: "int"}
+			}
+			r.fail("len of a non-object")
+		case "bigv", "u256":
+			v := r.tr(x.Args[0])
+			return &tval{code: r.asInt(v), kind: "int"}
+		case "ite":
+			c, a, b := r.tr(x.Args[0]), r.tr(x.Args[1]), r.tr(x.Args[2])
+			if r.numeric(a) || r.numeric(b) {
+				return &tval{code: fmt.Sprintf("func() *big.Int { if %s { return %s }; return %s }()", r.asBool(c), r.asInt(a), r.asInt(b)), kind: "int"}
+			}
+			return &tval{code: fmt.Sprintf("func() bool { if %s { return %s }; return %s }()", r.asBool(c), r.asBool(a), r.asBool(b)), kind: "bool"}
+		case "min", "max":
+			a, b := r.asInt(r.tr(x.Args[0])), r.asInt(r.tr(x.Args[1]))
+			return &tval{code: fmt.Sprintf("gv%s(%s, %s)", strings.Title(name), a, b), kind: "int"}
+		case "abs":
+			return &tval{code: "gvAbs(" + r.asInt(r.tr(x.Args[0])) + ")", kind: "int"}
+		case "pow":
+			return &tval{code: fmt.Sprintf("gvPow(%s, %s)", r.asInt(r.tr(x.Args[0])), r.asInt(r.tr(x.Args[1]))), kind: "int"}
+		case "quo":
+			return &tval{code: fmt.Sprintf("gvQuo(%s, %s)", r.asInt(r.tr(x.Args[0])), r.asInt(r.tr(x.Args[1]))), kind: "int"}
+		case "rem":
+			return &tval{code: fmt.Sprintf("gvRem(%s, %s)", r.asInt(r.tr(x.Args[0])), r.asInt(r.tr(x.Args[1]))), kind: "int"}
+		case "be":
+			v := r.tr(x.Args[0])
+			if v.kind == "native" {
+				return &tval{code: fmt.Sprintf("new(big.Int).SetBytes(%s[:])", v.code), kind: "int"}
+			}
+		case "forall", "exists":
+			bv, ok := x.Args[0].(*ast.Ident)
+			if !ok || len(x.Args) != 4 {
+				break
+			}
+			lo, hi := r.asInt(r.tr(x.Args[1])), r.asInt(r.tr(x.Args[2]))
+			saved, had := r.vars[bv.Name]
+			gv := r.fresh("gvQ")
+			r.vars[bv.Name] = &tval{code: gv, kind: "int"}
+			body := r.asBool(r.tr(x.Args[3]))
+			if had {
+				r.vars[bv.Name] = saved
+			} else {
+				delete(r.vars, bv.Name)
+			}
+			all := "true"
+			if name == "exists" {
+				all = "false"
+			}
+			return &tval{code: fmt.Sprintf("gvQuant(%s, %s, %s, func(%s *big.Int) bool { return %s })", all, lo, hi, gv, body), kind: "bool"}
+		case "typeis":
+			v := r.tr(x.Args[0])
+			s, ok := strArg(x.Args[1])
+			if !ok || v.kind != "native" {
+				break
+			}
+			t, ok := r.lookupNamed(s)
+			if !ok {
+				r.fail("type %s", s)
+				break
+			}
+			return &tval{code: fmt.Sprintf("func() bool { _, ok := interface{}(%s).(%s); return ok }()", v.code, r.typeStr(t)), kind: "bool"}
+		case "at":
+			// at(dyn(x), "pkg.T"): the T object the interface x points to
+			inner, ok := x.Args[0].(*ast.CallExpr)
+			s, ok2 := strArg(x.Args[1])
+			if !ok || !ok2 {
+				break
+			}
+			if fid, ok := inner.Fun.(*ast.Ident); !ok || (fid.Name != "dyn" && fid.Name != "ref") {
+				break
+			}
+			v := r.tr(inner.Args[0])
+			t, ok := r.lookupNamed(s)
+			if !ok || v.kind != "native" {
+				r.fail("type %s", s)
+				break
+			}
+			return &tval{code: fmt.Sprintf("(*(interface{}(%s).(%s)))", v.code, r.typeStr(types.NewPointer(t))), kind: "native", typ: t}
+		case "string":
+			v := r.tr(x.Args[0])
+			if v.kind == "native" {
+				return &tval{code: "string(" + v.code + ")", kind: "native", typ: types.Typ[types.String]}
+			}
+		case "same":
+			a, b := r.tr(x.Args[0]), r.tr(x.Args[1])
+			if a.kind == "native" && b.kind == "native" {
+				return &tval{code: fmt.Sprintf("gvSame(%s, %s)", a.code, b.code), kind: "bool"}
+			}
+		case "in":
+			m, k := r.tr(x.Args[0]), r.tr(x.Args[1])
+			if m.kind == "native" {
+				if mt, ok := m.typ.Underlying().(*types.Map); ok {
+					key := k.code
+					if isIntType(mt.Key()) {
+						key = fmt.Sprintf("%s(gvToI64(%s))", r.typeStr(mt.Key()), r.asInt(k))
+					}
+					return &tval{code: fmt.Sprintf("func() bool { _, ok := %s[%s]; return ok }()", m.code, key), kind: "bool"}
+				}
+			}
+		}
+		// a function of the package
+		if r.pkg != nil {
+			if fobj, ok := r.pkg.Scope().Lookup(name).(*types.Func); ok {
+				return r.goCall(name, fobj.Type().(*types.Signature), x.Args)
+			}
+		}
+		r.fail("spec function %s is not executable (ghost / uninterpreted / allocation predicate)", name)
+		return &tval{code: "false", kind: "bool"}
+	}
+	if sx, ok := x.Fun.(*ast.SelectorExpr); ok {
+		// method call or package function
+		if id, ok := sx.X.(*ast.Ident); ok && r.pkg != nil {
+			if _, bound := r.vars[id.Name]; !bound {
+				if _, isLet := r.lets[id.Name]; !isLet {
+					for _, imp := range r.pkg.Imports() {
+						if imp.Name() == id.Name {
+							if fobj, ok := imp.Scope().Lookup(sx.Sel.Name).(*types.Func); ok && fobj.Exported() {
+								return r.goCall(r.qual(imp)+"."+sx.Sel.Name, fobj.Type().(*types.Signature), x.Args)
+							}
+						}
+					}
+				}
+			}
+		}
+		recv := r.tr(sx.X)
+		if recv.kind == "native" {
+			obj, _, _ := types.LookupFieldOrMethod(recv.typ, true, r.pkg, sx.Sel.Name)
+			if m, ok := obj.(*types.Func); ok {
+				return r.goCall(recv.code+"."+sx.Sel.Name, m.Type().(*types.Signature), x.Args)
+			}
+		}
+	}
+	r.fail("call %s", exprString(x))
+	return &tval{code: "false", kind: "bool"}
+}
+
+func (r *replayer) goCall(fun string, sig *types.Signature, args []ast.Expr) *tval {
+	if sig.Results().Len() != 1 || sig.Variadic() || sig.Params().Len() != len(args) {
+		r.fail("call of %s in a specification", fun)
+		return &tval{code: "false", kind: "bool"}
+	}
+	var as []string
+	for i, a := range args {
+		v := r.tr(a)
+		pt := sig.Params().At(i).Type()
+		switch {
+		case v.kind == "native":
+			as = append(as, v.code)
+		case isIntType(pt):
+			as = append(as, fmt.Sprintf("%s(gvToI64(%s))", r.typeStr(pt), r.asInt(v)))
+		case v.kind == "bool":
+			as = append(as, v.code)
+		default:
+			r.fail("argument %d of %s", i, fun)
+		}
+	}
+	return &tval{code: fmt.Sprintf("%s(%s)", fun, strings.Join(as, ", ")), kind: "native", typ: sig.Results().At(0).Type()}
+}
+
+// ---------------------------------------------------------------------------
+
+const replayHelpers = `
+func gvBigLit(s string) *big.Int { v, _ := new(big.Int).SetString(s, 10); return v }
+func gvInt(x interface{}) *big.Int {
+	switch v := x.(type) {
+	case *big.Int:
+		if v == nil {
+			return new(big.Int)
+		}
+		return new(big.Int).Set(v)
+	case big.Int:
+		return new(big.Int).Set(&v)
+	case interface{ ToBig() *big.Int }:
+		rv := reflect.ValueOf(x)
+		if rv.Kind() == reflect.Ptr && rv.IsNil() {
+			return new(big.Int)
+		}
+		return v.ToBig()
+	}
+	rv := reflect.ValueOf(x)
+	switch rv.Kind() {
+	case reflect.Int, reflect.Int8, reflect.Int16, reflect.Int32, reflect.Int64:
+		return big.NewInt(rv.Int())
+	case reflect.Uint, reflect.Uint8, reflect.Uint16, reflect.Uint32, reflect.Uint64, reflect.Uintptr:
+		return new(big.Int).SetUint64(rv.Uint())
+	case reflect.Array:
+		// uint256.Int by value: four little-endian words
+		if rv.Len() == 4 && rv.Type().Elem().Kind() == reflect.Uint64 {
+			z := new(big.Int)
+			for i := 3; i >= 0; i-- {
+				z.Lsh(z, 64)
+				z.Or(z, new(big.Int).SetUint64(rv.Index(i).Uint()))
+			}
+			return z
+		}
+	case reflect.Bool:
+		if rv.Bool() {
+			return big.NewInt(1)
+		}
+		return new(big.Int)
+	}
+	panic(fmt.Sprintf("gvInt: unsupported %T", x))
+}
+func gvToI64(x *big.Int) int64 { if x.IsInt64() { return x.Int64() }; return int64(x.Uint64()) }
+func gvIdx(x *big.Int) int { if !x.IsInt64() { return -1 }; return int(x.Int64()) }
+func gvNeg(a *big.Int) *big.Int    { return new(big.Int).Neg(a) }
+func gvAdd(a, b *big.Int) *big.Int { return new(big.Int).Add(a, b) }
+func gvSub(a, b *big.Int) *big.Int { return new(big.Int).Sub(a, b) }
+func gvMul(a, b *big.Int) *big.Int { return new(big.Int).Mul(a, b) }
+func gvDiv(a, b *big.Int) *big.Int { if b.Sign() == 0 { return new(big.Int) }; return new(big.Int).Div(a, b) }
+func gvMod(a, b *big.Int) *big.Int { if b.Sign() == 0 { return new(big.Int).Set(a) }; return new(big.Int).Mod(a, b) }
+func gvQuo(a, b *big.Int) *big.Int { if b.Sign() == 0 { return new(big.Int) }; return new(big.Int).Quo(a, b) }
+func gvRem(a, b *big.Int) *big.Int { if b.Sign() == 0 { return new(big.Int).Set(a) }; return new(big.Int).Rem(a, b) }
+func gvShl(a, b *big.Int) *big.Int { return new(big.Int).Lsh(a, uint(b.Uint64())) }
+func gvShr(a, b *big.Int) *big.Int { return new(big.Int).Rsh(a, uint(b.Uint64())) }
+func gvAbs(a *big.Int) *big.Int    { return new(big.Int).Abs(a) }
+func gvMin(a, b *big.Int) *big.Int { if a.Cmp(b) < 0 { return a }; return b }
+func gvMax(a, b *big.Int) *big.Int { if a.Cmp(b) > 0 { return a }; return b }
+func gvPow(a, b *big.Int) *big.Int { return new(big.Int).Exp(a, b, nil) }
+func gvQuant(all bool, lo, hi *big.Int, f func(*big.Int) bool) bool {
+	for i := new(big.Int).Set(lo); i.Cmp(hi) < 0; i.Add(i, big.NewInt(1)) {
+		if f(new(big.Int).Set(i)) != all {
+			return !all
+		}
+	}
+	return all
+}
+func gvIsNil(x interface{}) bool {
+	if x == nil {
+		return true
+	}
+	rv := reflect.ValueOf(x)
+	switch rv.Kind() {
+	case reflect.Ptr, reflect.Slice, reflect.Map, reflect.Interface, reflect.Func, reflect.Chan:
+		return rv.IsNil()
+	}
 	return false
+}
+func gvEq(a, b interface{}) (r bool) {
+	defer func() {
+		if recover() != nil {
+			r = reflect.DeepEqual(a, b)
+		}
+	}()
+	return a == b
+}
+func gvSame(a, b interface{}) bool { return reflect.DeepEqual(a, b) }
+`
+
+type replayResult struct {
+	Attempted bool   `json:"attempted"`
+	Confirmed bool   `json:"confirmed"`
+	Reason    string `json:"reason,omitempty"`
+	Test      string `json:"test_source,omitempty"`
+	Output    string `json:"output,omitempty"`
+	Cmd       string `json:"cmd,omitempty"`
+}
+
+// tryReplay attempts to run the solver's counterexample against the real code.
+func (e *Engine) tryReplay(o *Obl, prop, verif string) *replayResult {
+	res := &replayResult{}
+	c := o.ctx
+	if c == nil || c.fn == nil || c.contract == nil {
+		res.Reason = "no function context"
+		return res
+	}
+	if o.Kind != "ensures" && o.Kind != "safety" {
+		res.Reason = "only postcondition and safety obligations are replayed"
+		return res
+	}
+	fn := c.fn
+	if fn.Pkg == nil || len(fn.FreeVars) > 0 {
+		res.Reason = "closure or synthetic function"
+		return res
+	}
+	r := &replayer{c: c, e: e, fn: fn, pkg: fn.Pkg.Pkg, imports: map[string]string{"math/big": "big", "reflect": "reflect", "fmt": "fmt", "testing": "testing"},
+		tindex: map[string]int{}, lets: map[string]*tval{}, defs: e.specDefs, vars: map[string]*tval{}}
+	c.noBind++
+	defer func() { c.noBind-- }()
+	nDecl0 := len(c.decls)
+	// plan the inputs
+	var plans []*rnode
+	for i, p := range fn.Params {
+		if i >= len(c.fnParams) {
+			res.Reason = "parameter bookkeeping"
+			return res
+		}
+		n := r.plan(p.Type(), c.fnParams[i], 0)
+		if n == nil {
+			res.Reason = "input not reconstructible: " + r.unsup
+			return res
+		}
+		r.register(n)
+		plans = append(plans, n)
+	}
+	// ask the solver for the values
+	script := o.scriptOpt(false, false)
+	script = strings.Replace(script, "(check-sat)\n", "", 1)
+	var extraDecls strings.Builder
+	for _, d := range c.decls[nDecl0:] {
+		extraDecls.WriteString(d + "\n")
+	}
+	// declarations made while planning go in front of the assertions
+	script = insertDecls(script, extraDecls.String())
+	work, _ := os.MkdirTemp("", "gvc-replay-")
+	defer os.RemoveAll(work)
+	qf := filepath.Join(work, "q.smt2")
+	txt := ""
+	for attempt := 0; attempt < 2; attempt++ {
+		q := "(set-option :produce-models true)\n" + script
+		if attempt == 0 {
+			// prefer a small counterexample: bounded slice lengths
+			for _, bd := range r.bounds {
+				q += "(assert " + bd + ")\n"
+			}
+		}
+		q += "(check-sat)\n"
+		if len(r.terms) > 0 {
+			q += "(get-value (" + strings.Join(r.terms, " ") + "))\n"
+		}
+		os.WriteFile(qf, []byte(q), 0o644)
+		out, _ := exec.Command("z3-new", "-T:30", qf).CombinedOutput()
+		txt = string(out)
+		if strings.HasPrefix(strings.TrimSpace(txt), "sat") || len(r.bounds) == 0 {
+			break
+		}
+	}
+	if !strings.HasPrefix(strings.TrimSpace(txt), "sat") {
+		res.Reason = "the model query did not return sat: " + firstLines(txt, 2)
+		return res
+	}
+	vals, ok := parseGetValue(txt[strings.Index(txt, "sat")+3:], len(r.terms))
+	if !ok {
+		res.Reason = "could not parse the model values"
+		return res
+	}
+	r.vals = vals
+	res.Attempted = true
+	// build the test
+	sig := fn.Signature
+	var b strings.Builder
+	var argNames []string
+	for i, p := range fn.Params {
+		nm := p.Name()
+		if nm == "" || nm == "_" {
+			nm = fmt.Sprintf("gvArg%d", i)
+		}
+		code := r.emit(plans[i])
+		fmt.Fprintf(&b, "\t%s := %s\n\t_ = %s\n", nm, code, nm)
+		argNames = append(argNames, nm)
+		r.vars[p.Name()] = &tval{code: nm, kind: "native", typ: p.Type()}
+	}
+	if r.unsup != "" {
+		res.Attempted = false
+		res.Reason = "input not reconstructible: " + r.unsup
+		return res
+	}
+	// call expression
+	call := ""
+	if sig.Recv() != nil {
+		call = fmt.Sprintf("%s.%s(%s)", argNames[0], fn.Name(), strings.Join(argNames[1:], ", "))
+	} else {
+		call = fmt.Sprintf("%s(%s)", fn.Name(), strings.Join(argNames, ", "))
+	}
+	var resNames []string
+	for i := 0; i < sig.Results().Len(); i++ {
+		resNames = append(resNames, fmt.Sprintf("gvRes%d", i))
+	}
+	clause := "true"
+	if o.Kind == "ensures" {
+		// lets (entry state)
+		for _, l := range c.contract.Lets {
+			v := r.tr(l.Expr)
+			nm := "gvLet_" + l.Name
+			r.pre = append(r.pre, fmt.Sprintf("%s := %s", nm, v.code), "_ = "+nm)
+			r.lets[l.Name] = &tval{code: nm, kind: v.kind, typ: v.typ}
+		}
+		for i := 0; i < sig.Results().Len(); i++ {
+			tv := &tval{code: resNames[i], kind: "native", typ: sig.Results().At(i).Type()}
+			r.vars[fmt.Sprintf("result%d", i)] = tv
+			if i == 0 {
+				r.vars["result"] = tv
+			}
+			if nm := sig.Results().At(i).Name(); nm != "" && nm != "_" {
+				r.vars[nm] = tv
+			}
+			if i == sig.Results().Len()-1 && isErrorType(sig.Results().At(i).Type()) {
+				if _, ok := r.vars["err"]; !ok || sig.Results().At(i).Name() == "" {
+					r.vars["err"] = tv
+				}
+			}
+		}
+		var clauseExpr ast.Expr
+		for _, en := range c.contract.Ensures {
+			if en.Text == o.Clause {
+				clauseExpr = en.Expr
+			}
+		}
+		if clauseExpr == nil {
+			res.Attempted = false
+			res.Reason = "clause not found"
+			return res
+		}
+		r.inPost = true
+		clause = r.asBool(r.tr(clauseExpr))
+		if r.unsup != "" {
+			res.Attempted = false
+			res.Reason = "clause not executable: " + r.unsup
+			return res
+		}
+	}
+	var src strings.Builder
+	fmt.Fprintf(&src, "package %s\n\nimport (\n", r.pkg.Name())
+	var paths []string
+	for p := range r.imports {
+		paths = append(paths, p)
+	}
+	sort.Strings(paths)
+	for _, p := range paths {
+		fmt.Fprintf(&src, "\t%s %q\n", r.imports[p], p)
+	}
+	src.WriteString(")\n\nvar _ = reflect.DeepEqual\nvar _ = fmt.Sprint\n")
+	if _, ok := r.imports["github.com/holiman/uint256"]; ok {
+		src.WriteString("func gvU256Lit(s string) *uint256.Int { z, _ := uint256.FromBig(gvBigLit(s)); return z }\n")
+	}
+	src.WriteString(replayHelpers)
+	src.WriteString("\nfunc TestGvcReplay(t *testing.T) {\n")
+	src.WriteString(b.String())
+	for _, p := range r.pre {
+		src.WriteString("\t" + p + "\n")
+	}
+	src.WriteString("\tpanicked := true\n\tfunc() {\n\t\tdefer func() {\n\t\t\tif panicked {\n\t\t\t\tfmt.Printf(\"GVC-REPLAY panic: %v\\n\", recover())\n\t\t\t}\n\t\t}()\n")
+	if len(resNames) > 0 {
+		fmt.Fprintf(&src, "\t\t%s := %s\n", strings.Join(resNames, ", "), call)
+		for _, rn := range resNames {
+			fmt.Fprintf(&src, "\t\t_ = %s\n", rn)
+		}
+	} else {
+		fmt.Fprintf(&src, "\t\t%s\n", call)
+	}
+	fmt.Fprintf(&src, "\t\tpanicked = false\n\t\tfunc() {\n\t\t\tdefer func() {\n\t\t\t\tif e := recover(); e != nil {\n\t\t\t\t\tfmt.Printf(\"GVC-REPLAY clause-panic: %%v\\n\", e)\n\t\t\t\t}\n\t\t\t}()\n\t\t\tfmt.Printf(\"GVC-REPLAY clause=%%v\\n\", %s)\n\t\t}()\n\t}()\n}\n", clause)
+	res.Test = src.String()
+	// run it
+	dir := filepath.Dir(e.fset.Position(fn.Pos()).Filename)
+	testFile := filepath.Join(dir, "zz_gvc_replay_test.go")
+	tf := filepath.Join(work, "replay_test.go")
+	os.WriteFile(tf, []byte(res.Test), 0o644)
+	ov := map[string]interface{}{"Replace": map[string]string{testFile: tf}}
+	ovData, _ := json.Marshal(ov)
+	ovf := filepath.Join(work, "overlay.json")
+	os.WriteFile(ovf, ovData, 0o644)
+	cmd := exec.Command("go", "test", "-overlay", ovf, "-v", "-vet=off", "-count=1", "-timeout", "120s", "-run", "^TestGvcReplay$", ".")
+	cmd.Dir = dir
+	cmd.Env = append(os.Environ(), "GOFLAGS=-mod=mod", "GOPROXY=off", "GOSUMDB=off", "GOTOOLCHAIN=local")
+	res.Cmd = "cd " + dir + " && go test -overlay <overlay.json: " + testFile + " -> test_source> -v -vet=off -count=1 -timeout 120s -run '^TestGvcReplay$' ."
+	tout, _ := cmd.CombinedOutput()
+	res.Output = firstLines(string(tout), 30)
+	switch {
+	case o.Kind == "safety":
+		res.Confirmed = strings.Contains(string(tout), "GVC-REPLAY panic:")
+	default:
+		res.Confirmed = strings.Contains(string(tout), "GVC-REPLAY clause=false")
+	}
+	if !res.Confirmed {
+		switch {
+		case strings.Contains(string(tout), "GVC-REPLAY clause=true"):
+			res.Reason = "the real code satisfies the clause on the solver's input (the model exploits an abstraction of the encoding)"
+		case strings.Contains(string(tout), "GVC-REPLAY panic:"):
+			res.Reason = "the real code panics on the solver's input before reaching the clause"
+		default:
+			res.Reason = "the replay test did not produce a verdict"
+		}
+	}
+	return res
+}
+
+// insertDecls puts extra declarations before the first assertion of a script.
+func insertDecls(script, decls string) string {
+	if decls == "" {
+		return script
+	}
+	i := strings.Index(script, "(assert ")
+	if i < 0 {
+		return script + decls
+	}
+	return script[:i] + decls + script[i:]
+}
+
+// parseGetValue parses "((t1 v1) (t2 v2) ...)" and returns the values in order.
+func parseGetValue(s string, n int) ([]string, bool) {
+	s = strings.TrimSpace(s)
+	if n == 0 {
+		return nil, true
+	}
+	i := strings.Index(s, "(")
+	if i < 0 {
+		return nil, false
+	}
+	// find the matching close of the outer list
+	pairs := sexprList(s[i:])
+	if len(pairs) != n {
+		return nil, false
+	}
+	out := make([]string, n)
+	for k, p := range pairs {
+		parts := sexprList(p)
+		if len(parts) != 2 {
+			return nil, false
+		}
+		out[k] = smtValue(parts[1])
+	}
+	return out, true
+}
+
+// sexprList splits "(a b c)" into all of its elements.
+func sexprList(s string) []string {
+	s = strings.TrimSpace(s)
+	if len(s) < 2 || s[0] != '(' {
+		return nil
+	}
+	// cut at the matching parenthesis
+	depth := 0
+	inq := false
+	end := -1
+	for i := 0; i < len(s); i++ {
+		ch := s[i]
+		if inq {
+			if ch == '|' {
+				inq = false
+			}
+			continue
+		}
+		switch ch {
+		case '|':
+			inq = true
+		case '(':
+			depth++
+		case ')':
+			depth--
+			if depth == 0 {
+				end = i
+			}
+		}
+		if end >= 0 {
+			break
+		}
+	}
+	if end < 0 {
+		return nil
+	}
+	body := s[1:end]
+	var out []string
+	depth = 0
+	inq = false
+	start := -1
+	for i := 0; i < len(body); i++ {
+		ch := body[i]
+		if inq {
+			if ch == '|' {
+				inq = false
+			}
+			continue
+		}
+		switch ch {
+		case '|':
+			inq = true
+			if start < 0 {
+				start = i
+			}
+		case '(':
+			if start < 0 {
+				start = i
+			}
+			depth++
+		case ')':
+			depth--
+		case ' ', '\n', '\t', '\r':
+			if depth == 0 && start >= 0 {
+				out = append(out, body[start:i])
+				start = -1
+			}
+		default:
+			if start < 0 {
+				start = i
+			}
+		}
+	}
+	if start >= 0 {
+		out = append(out, body[start:])
+	}
+	return out
+}
+
+// smtValue normalises "(- 5)" to "-5".
+func smtValue(v string) string {
+	v = strings.TrimSpace(v)
+	if strings.HasPrefix(v, "(-") {
+		inner := strings.TrimSpace(strings.TrimSuffix(strings.TrimPrefix(v, "(-"), ")"))
+		return "-" + inner
+	}
+	return v
 }
 
 func cmdReplay(args []string) {
@@ -25,7 +1316,39 @@ func cmdReplay(args []string) {
 	var info map[string]interface{}
 	json.Unmarshal(data, &info)
 	fmt.Printf("obligation: %v\nclause: %v\nexit: %v\nreason: %v\n", info["obligation"], info["clause"], info["exit"], info["reason"])
-	if r, ok := info["replay"]; ok {
-		fmt.Printf("replay: %v\n", r)
+	rp, ok := info["replay"].(map[string]interface{})
+	if !ok {
+		fmt.Println("replay: none recorded (no-failing-input-found); solver output:")
+		fmt.Println(info["solver_output"])
+		return
 	}
+	src, _ := rp["test_source"].(string)
+	if src == "" {
+		fmt.Printf("replay: not executable: %v\n", rp["reason"])
+		return
+	}
+	// re-run the recorded test against the current tree
+	pkgDir, _ := info["package_dir"].(string)
+	if pkgDir == "" {
+		fmt.Println("replay: no package directory recorded")
+		return
+	}
+	work, _ := os.MkdirTemp("", "gvc-replay-")
+	defer os.RemoveAll(work)
+	tf := filepath.Join(work, "replay_test.go")
+	os.WriteFile(tf, []byte(src), 0o644)
+	ov := map[string]interface{}{"Replace": map[string]string{filepath.Join(pkgDir, "zz_gvc_replay_test.go"): tf}}
+	ovData, _ := json.Marshal(ov)
+	ovf := filepath.Join(work, "overlay.json")
+	os.WriteFile(ovf, ovData, 0o644)
+	cmd := exec.Command("go", "test", "-overlay", ovf, "-v", "-vet=off", "-count=1", "-timeout", "120s", "-run", "^TestGvcReplay$", ".")
+	cmd.Dir = pkgDir
+	cmd.Env = append(os.Environ(), "GOFLAGS=-mod=mod", "GOPROXY=off", "GOSUMDB=off", "GOTOOLCHAIN=local")
+	out, _ := cmd.CombinedOutput()
+	fmt.Print(string(out))
+	if strings.Contains(string(out), "GVC-REPLAY clause=false") || (info["kind"] == "safety" && strings.Contains(string(out), "GVC-REPLAY panic:")) {
+		fmt.Println("replay: violation reproduced on the current tree")
+		os.Exit(1)
+	}
+	fmt.Println("replay: not reproduced on the current tree")
 }
